@@ -1196,7 +1196,87 @@ func (m *Model) ruleONETXN(r *Results) {
 		problems = uniq(problems)
 		r.check(len(problems) == 0, rule, key, pos, "one transaction per call", strings.Join(problems, "; "))
 	}
+	// an operation composed of two operations that each commit on their own: a function that runs
+	// no transaction itself but, on one pass through its body (loop back edges not followed: a
+	// retry repeats the operation, it does not extend it), calls two functions that do
+	for _, fn := range m.Funcs {
+		if fn.Parent() != nil || !m.inPkg(fn) || fn == a.TxnRunner || m.onTxnChain(fn) || fw[fn].kind != "" {
+			continue
+		}
+		direct := false
+		var sites []ssa.CallInstruction
+		m.eachCall(fn, func(c ssa.CallInstruction) {
+			f := c.Common().StaticCallee()
+			if f == nil {
+				return
+			}
+			if f == a.TxnRunner || f == a.Allocator || fw[f].kind != "" {
+				direct = true
+				return
+			}
+			if _, isGo := c.(*ssa.Go); isGo {
+				return
+			}
+			if _, isDefer := c.(*ssa.Defer); isDefer {
+				return
+			}
+			if m.inPkg(f) && m.reachesRunner(f, memo) {
+				sites = append(sites, c)
+			}
+		})
+		if direct || len(sites) < 2 {
+			continue
+		}
+		var problems []string
+		for i := range sites {
+			for j := range sites {
+				if i != j && forwardReachable(sites[i], sites[j]) {
+					problems = append(problems, fmt.Sprintf("%s (%s) and then %s (%s)", m.declName(sites[i].Common().StaticCallee()), m.instrPos(sites[i]), m.declName(sites[j].Common().StaticCallee()), m.instrPos(sites[j])))
+				}
+			}
+		}
+		sort.Strings(problems)
+		problems = uniq(problems)
+		r.check(len(problems) == 0, rule, m.declName(fn)+" / composed of operations that commit separately", m.pos(fn.Pos()), "at most one committing call on any pass through the body", "one call runs "+strings.Join(problems, "; ")+": each commits on its own, so a crash (or a concurrent reader) between them sees half of the operation")
+	}
 	r.floor(rule, 14)
+}
+
+// forwardReachable: instruction b can execute after a on a path that follows no loop back edge.
+func forwardReachable(a, b ssa.Instruction) bool {
+	if a.Block() == b.Block() {
+		ia, ib := indexIn(a.Block(), a), indexIn(b.Block(), b)
+		return ia < ib
+	}
+	seen := map[*ssa.BasicBlock]bool{}
+	var visit func(x *ssa.BasicBlock) bool
+	visit = func(x *ssa.BasicBlock) bool {
+		if x == b.Block() {
+			return true
+		}
+		if seen[x] {
+			return false
+		}
+		seen[x] = true
+		for _, s := range x.Succs {
+			if s.Dominates(x) {
+				continue // back edge
+			}
+			if visit(s) {
+				return true
+			}
+		}
+		return false
+	}
+	for _, s := range a.Block().Succs {
+		if s.Dominates(a.Block()) {
+			continue
+		}
+		if visit(s) {
+			return true
+		}
+	}
+	return false
 }
 
 func (m *Model) ruleTXNREADS(r *Results) {
@@ -1231,6 +1311,43 @@ func (m *Model) ruleTXNREADS(r *Results) {
 				if fa, ok := in.(*ssa.FieldAddr); ok && fieldOf(fa) == a.DBField && fn != a.TxnRunner {
 					r.bad(rule, m.declName(clos)+" -> "+m.declName(fn)+" / DB field", m.instrPos(fa), "code running inside a transaction touches the raw DB handle")
 				}
+			}
+		}
+	}
+	// what a transaction writes is computed from what THAT transaction read: no value bound into a
+	// documents write derives from a row read through the pool (before the transaction, outside its
+	// snapshot and its lock) - a counter read outside and written inside loses concurrent increments
+	te := m.newTermEval()
+	for _, wu := range m.writeUnits(te) {
+		for _, col := range []string{"value", "xattrs", "revseqno", "exp", "isjson"} {
+			src := wu.Cols[col]
+			if src.Kind != "bound" || src.Term == nil {
+				continue
+			}
+			bad := ""
+			var walk func(t *Term, d int)
+			walk = func(t *Term, d int) {
+				if t == nil || d > 8 {
+					return
+				}
+				if t.Kind == "scan" && t.Site != nil && strings.Contains(t.Handle, "pool") && !strings.Contains(t.Handle, "txn") {
+					for _, v := range t.Site.Variants {
+						if st := v.Stmt(); st != nil {
+							for _, tb := range st.Tables() {
+								if tb == "documents" {
+									bad = t.String()
+								}
+							}
+						}
+					}
+				}
+				for _, a := range t.Args {
+					walk(a, d+1)
+				}
+			}
+			walk(src.Term, 0)
+			if bad != "" {
+				r.bad(rule, fmt.Sprintf("%s / %s / %s computed from this transaction's own reads", m.declName(wu.K), wu.Stmt.Shape(), col), m.instrPos(wu.Site.Call), "the value written to %s derives from %s, a row read through the connection pool outside the transaction: a concurrent write between that read and this transaction is overwritten (lost update)", col, bad)
 			}
 		}
 	}
@@ -1405,7 +1522,7 @@ func (m *Model) fieldsReadThrough(fn *ssa.Function, recv *ssa.Parameter, seen ma
 		for _, in := range b.Instrs {
 			switch x := in.(type) {
 			case *ssa.FieldAddr:
-				if stripConv(x.X) == ssa.Value(recv) {
+				if stripConv(fieldRoot(x)) == ssa.Value(recv) {
 					for _, ref := range *x.Referrers() {
 						if ld, ok := ref.(*ssa.UnOp); ok && ld.Op == token.MUL {
 							out[fieldOf(x)] = true
